@@ -360,7 +360,7 @@ class PoissonSimulateCatalog:
     qualname = 'csep.core.poisson_evaluations._simulate_catalog'
     case = 'injected random numbers'
     oracle = 'poisson_simulate_catalog'
-    properties = ('C06',)
+    properties = ('C06', 'C05')
 
     def params(c):
         K = c.int('K')
